@@ -7,6 +7,7 @@ import (
 	"strings"
 	"unicode"
 
+	lua "github.com/yuin/gopher-lua"
 	yaml "gopkg.in/yaml.v3"
 )
 
@@ -754,4 +755,83 @@ func VerifC14LuaNumbers() {
 		verifAssert(got == val, "C14/lua-number-denotes-another-value")
 	}
 	verifCover("C14/luanum/end")
+}
+
+// VerifC14LuaTables: the Lua decoder's conversion of a table (gopher-lua's LTable, its real Go code; built here through
+// its API, no VM involved): a table whose keys are exactly 1..n becomes the sequence of its values; any other table
+// becomes a map that holds EVERY pair (integer keys, also 0 and gaps, as integer keys; string keys as strings).
+func VerifC14LuaTables() {
+	t := &lua.LTable{}
+	n := verifChoice("pairs", 4)
+	intKeys := 0
+	strKeys := 0
+	isSeq := true
+	nextIdx := 1
+	var wantKeys []string
+	for i := 0; i < n; i++ {
+		val := lua.LString("v" + verifItoa(int64(i)))
+		if verifChoice("keykind"+verifItoa(int64(i)), 2) == 0 {
+			k := verifChoice("int"+verifItoa(int64(i)), 5) // 0..4
+			dup := false
+			for _, w := range wantKeys {
+				if w == "I"+verifItoa(int64(k)) {
+					dup = true
+				}
+			}
+			if dup {
+				return
+			}
+			t.RawSetInt(k, val)
+			wantKeys = append(wantKeys, "I"+verifItoa(int64(k)))
+			intKeys++
+		} else {
+			k := []string{"x", "y", "0", "1"}[verifChoice("str"+verifItoa(int64(i)), 4)]
+			dup := false
+			for _, w := range wantKeys {
+				if w == "S"+k {
+					dup = true
+				}
+			}
+			if dup {
+				return
+			}
+			t.RawSetString(k, val)
+			wantKeys = append(wantKeys, "S"+k)
+			strKeys++
+		}
+	}
+	// is the key set exactly {1..n}?
+	for idx := 1; idx <= n; idx++ {
+		found := false
+		for _, w := range wantKeys {
+			if w == "I"+verifItoa(int64(idx)) {
+				found = true
+			}
+		}
+		isSeq = isSeq && found
+	}
+	_ = nextIdx
+	node := (&luaDecoder{}).convertToYamlNode(nil, t)
+	label := "pairs=" + verifItoa(int64(n))
+	if n > 0 && isSeq {
+		verifAssert(node.Kind == SequenceNode && len(node.Content) == n, "C14/lua-table-1..n-is-not-a-sequence "+label)
+		verifCover("C14/luatable/sequence")
+	} else if n > 0 {
+		verifAssert(node.Kind == MappingNode, "C14/lua-table-with-other-keys-is-not-a-map "+label)
+		if node.Kind == MappingNode {
+			verifAssert(len(node.Content) == 2*n, "C14/lua-table-lost-pairs "+label)
+			for _, w := range wantKeys {
+				found := false
+				for i := 0; i+1 < len(node.Content); i += 2 {
+					kn := node.Content[i]
+					if (w[0] == 'I' && kn.Tag == "!!int" && kn.Value == w[1:]) || (w[0] == 'S' && kn.Tag == "!!str" && kn.Value == w[1:]) {
+						found = true
+					}
+				}
+				verifAssert(found, "C14/lua-table-lost-a-key "+label)
+			}
+		}
+		verifCover("C14/luatable/map")
+	}
+	verifCover("C14/luatable/end")
 }
